@@ -160,7 +160,7 @@ Lemma finish_with_exc_step s r : exc_step s (finish_with s r).
 Proof. left. apply finish_with_res. Qed.
 
 Ltac other_exc := first [apply fail_with_exc_step; intros e0; discriminate | apply finish_with_exc_step
-                         | left; exact (proj2 (finish_with_res (set_paging _ _) _))].
+                         | left; exact (proj2 (finish_rows_res _ _))].
 
 Lemma set_result_exc c s h r s' ev : set_result c s h r = (s', ev) -> exc_step s s'.
 Proof.
@@ -203,6 +203,7 @@ Proof.
   - destruct (nth_error (attempts s) i) as [a|]; [|inversion H; subst; left; reflexivity].
     destruct (a_done a); [inversion H; subst; left; reflexivity|].
     destruct (a_prep a); [inversion H; subst; left; reflexivity|].
+    destruct (Nat.eqb (a_page a) (page_no s)); [|inversion H; subst; left; reflexivity].
     apply set_result_exc in H. eapply exc_step_pre; [|exact H]. reflexivity.
   - destruct (nth_error (queue s) k) as [t|]; [|inversion H; subst; left; reflexivity].
     assert (G : exc_step (set_queue s (remove_nth k (queue s))) s').
